@@ -55,15 +55,20 @@ def call_law(law, A, B, x, lazy):
             r = getattr(E, fn)(mk(A, lazy), x, ctx)
         elif kind == "n":
             # nest A deterministically: [[a0, a1], a2, [[a3], a4], ...]
-            nested, i = [], 0
+            # shapes in turn: a (lazy) row, a bare leaf, a plain list holding a (lazy) row, a plain list of
+            # leaves and a (lazy) row -- lazily generated rows inside plain lists included
+            nested, i, turn = [], 0, 0
             while i < len(A):
-                k = (i % 3)
+                k = turn % 4
+                turn += 1
                 if k == 0:
                     nested.append(mk(A[i:i + 2], lazy)); i += 2
-                elif k == 2:
+                elif k == 1:
                     nested.append(A[i]); i += 1
-                else:
+                elif k == 2:
                     nested.append([mk(A[i:i + 1], lazy)]); i += 1
+                else:
+                    nested.append([A[i], mk(A[i + 1:i + 3], lazy)]); i += 3
             r = getattr(E, fn)(mk(nested, False), ctx)
         elif kind == "inv":
             r = E.reverse(E.reverse(mk(A, lazy), ctx), ctx)
